@@ -8,6 +8,7 @@ import rules_iter  # noqa: F401
 import rules_state  # noqa: F401
 import rules_arith  # noqa: F401
 import rules_repair  # noqa: F401
+import rules_order  # noqa: F401
 
 COMMON_ASSUME = [
     "clang 14 front end parses /repo as g++ 12 compiles it (same flags, -std=gnu++17, -UNDEBUG)",
@@ -17,7 +18,7 @@ COMMON_ASSUME = [
 
 PROPS = {
     "C02": {
-        "rules": ["R-IDGUARD", "R-ACCEPT", "R-ALPHAGUARD", "R-NOTFOUND", "R-SCANEXIT"],
+        "rules": ["R-IDGUARD", "R-ACCEPT", "R-ALPHAGUARD", "R-NOTFOUND", "R-SCANEXIT", "R-PURE-BASIC"],
         "explanation": "CFG edge-dominance rules: every use of the id in the 13 extract overrides is dominated by both range tests and the "
                        "failing path stores length 0 and returns NULL; in the six hash lookups an ID is returned only under a successful full "
                        "comparison, each probe is preceded by the occupied-cell test, the probe loop is bounded by the table size; XBW accepts only "
@@ -26,33 +27,39 @@ PROPS = {
         "decided": ["ID range guard dominates every memory-reaching use of id, incl. 0 and SIZE_MAX (R-IDGUARD)",
                     "no acceptance without comparison; empty cell ends the probe; bounded probe loop; XBW terminator test (R-ACCEPT)",
                     "alphabet test before occ[] for every pattern byte, in the function or by construction at every call site (R-ALPHAGUARD)",
-                    "not-found protocol between search helpers and their callers (R-NOTFOUND)", "every in-bucket scan has the early exit its four siblings have (R-SCANEXIT)"],
+                    "not-found protocol between search helpers and their callers (R-NOTFOUND)", "every in-bucket scan has the early exit its four siblings have (R-SCANEXIT)",
+                    "locate/extract keep no state between calls (R-PURE-BASIC)"],
         "not_decided": ["that the comparison routines compare correctly", "reads inside decoders for absent strings in front-coded buckets (bounded only by run-time offsets)"],
         "assumptions": COMMON_ASSUME,
     },
     "C04": {
-        "rules": ["R-NOTFOUND", "R-WINDOW", "R-ALPHAGUARD", "R-BUCKET", "R-FMMAP", "R-SCANEXIT"],
+        "rules": ["R-NOTFOUND", "R-WINDOW", "R-ALPHAGUARD", "R-BUCKET", "R-FMMAP", "R-SCANEXIT", "R-PURE-PREFIX", "R-CMPSIGN", "R-BSEARCH", "R-SCANSIGN", "R-BISECT"],
         "explanation": "The structural half of prefix search: the not-found protocol of the in-bucket search helpers (all five front-coding kinds), "
                        "agreement between the located ID range and the window handed to the string iterator under that iterator class's own "
                        "first/end protocol (symbolic count = right-left+1, incl. the empty range), alphabet guard for absent bytes.",
         "decided": ["searchPrefix-style helpers can report not-found where callers test for it (R-NOTFOUND)",
                     "extractPrefix yields exactly right-left+1 strings for the range locatePrefix computes; extractTable numElements (R-WINDOW)",
-                    "bytes occurring in no member cannot index occ[] (R-ALPHAGUARD)"],
+                    "bytes occurring in no member cannot index occ[] (R-ALPHAGUARD)",
+                    "locatePrefix/extractPrefix and the iterators they return write no dictionary state, static or borrowed memory: the result is a function of dictionary and pattern only (R-PURE-PREFIX)",
+                    "three-way string comparators are oriented one way on all their paths (sign polarity of the pattern bytes in every returned value, R-CMPSIGN)",
+                    "binary searches move the bound the comparator's orientation dictates, and in-bucket scans give up only once the stored string is larger (R-BSEARCH, R-SCANSIGN)",
+                    "the left/right boundary bisections of prefix search cover the whole interval the main binary search left open, with the step forms of a closed resp. half-open interval (R-BISECT)"],
         "not_decided": ["correctness of the boundary binary searches and in-bucket scans on actual data (value-level)"],
         "assumptions": COMMON_ASSUME,
     },
     "C05": {
-        "rules": ["R-DEDUP", "R-DUPSKIP", "R-SAMPLECOUNT", "R-STUB", "R-ALPHAGUARD"],
+        "rules": ["R-DEDUP", "R-DUPSKIP", "R-SAMPLECOUNT", "R-STUB", "R-ALPHAGUARD", "R-PURE-SUBSTR"],
         "explanation": "Only the de-duplication protocol and the configuration guard are decided: the occurrence array is sorted over exactly [a,a+n) "
                        "and carries the 0 sentinel at a[n] before a duplicate-skipping iterator is created, is allocated with n+1 entries, and the "
                        "BWTsampling==0 configuration is an effect-free stub.",
         "decided": ["sort-before-dedup over the exact range, sentinel store, allocation extent matches+1 (R-DEDUP)",
-                    "BWTsampling==0 guard first, stub region returns null (R-STUB)", "absent bytes are rejected before indexing (R-ALPHAGUARD)"],
+                    "BWTsampling==0 guard first, stub region returns null (R-STUB)", "absent bytes are rejected before indexing (R-ALPHAGUARD)",
+                    "locateSubstr/extractSubstr and the iterators they return write no dictionary state, static or borrowed memory (R-PURE-SUBSTR)"],
         "not_decided": ["backward search, LF-walk and the position-to-ID mapping through the separator bitmap (value-level): the core of the property"],
         "assumptions": COMMON_ASSUME,
     },
     "C01": {
-        "rules": ["R-STATE", "R-INITCOVER", "R-MIRROR", "R-IDGUARD", "R-SELECTRANGE", "R-PROBE", "R-BUCKET", "R-FMMAP", "R-BYTEORDER"],
+        "rules": ["R-STATE", "R-INITCOVER", "R-MIRROR", "R-IDGUARD", "R-SELECTRANGE", "R-PROBE", "R-BUCKET", "R-FMMAP", "R-BYTEORDER", "R-PURE-BASIC", "R-SLOT", "R-CLAMP", "R-CMPSIGN", "R-BSEARCH", "R-SCANSIGN"],
         "explanation": "The clause `for the freshly built object and the reloaded one alike` is decided structurally: for every kind and both "
                        "creation paths, every field read by a query on an object of a class that path instantiates (rapid type analysis, virtual "
                        "calls resolved to final overriders of instantiated classes) is assigned by code reachable from that creation path, pointer "
@@ -61,13 +68,18 @@ PROPS = {
         "decided": ["built/loaded state parity for all 13 kinds x 2 creation paths (R-STATE)", "full initialisation of byte-indexed tables (R-INITCOVER)",
                     "image carries every field load needs (R-MIRROR)", "extract range guard (R-IDGUARD)",
                     "insert and lookup walk the same probe sequence in all 8 double-hashing walks (R-PROBE)",
-                    "ID <-> (bucket, offset) arithmetic is an inverse pair in all five front-coding kinds (R-BUCKET)", "FM-index row <-> ID mapping agrees at all five sites (R-FMMAP)"],
+                    "ID <-> (bucket, offset) arithmetic is an inverse pair in all five front-coding kinds (R-BUCKET)", "FM-index row <-> ID mapping agrees at all five sites (R-FMMAP)",
+                    "locate/extract keep no state between calls (statics, dictionary fields), so an ID/string cannot depend on call history (R-PURE-BASIC)",
+                    "in the block dictionary each finished block is stored in the slot reserved for it at submission, so parts[k] matches cut_samples[k]/starting_indexes[k] (R-SLOT)",
+                    "the build loop and the queries use the same (clamped) bucket size (R-CLAMP)",
+                    "three-way string comparators are oriented one way on all their paths (sign polarity of the pattern bytes in every returned value, R-CMPSIGN)",
+                    "binary searches move the bound the comparator's orientation dictates, and in-bucket scans give up only once the stored string is larger (R-BSEARCH, R-SCANSIGN)"],
         "not_decided": ["that decoding inverts encoding for every string (Hu-Tucker, Huffman, Re-Pair, DAC, rank/select values)", "binary-search correctness",
                         "HHTFC / RPHTFC mis-decode small inputs even when reloaded (seen by triage probes replays/t_roundtrip.cpp; value-level, outside every rule)"],
         "assumptions": COMMON_ASSUME,
     },
     "C07": {
-        "rules": ["R-STATE", "R-INITCOVER", "R-EXTENT", "R-KILLUSE", "R-DANGLING", "R-ALPHAGUARD", "R-DEDUP", "R-IDGUARD", "R-SHIFT", "R-CLAMP", "R-ZEROFILL", "R-GROW", "R-SLACK", "R-ALLOCFORM"],
+        "rules": ["R-STATE", "R-INITCOVER", "R-EXTENT", "R-KILLUSE", "R-DANGLING", "R-ALPHAGUARD", "R-DEDUP", "R-IDGUARD", "R-SHIFT", "R-CLAMP", "R-ZEROFILL", "R-GROW", "R-SLACK", "R-ALLOCFORM", "R-LOCKSET"],
         "explanation": "Structural preconditions of memory safety, each a necessary condition with confirmed instances: no operation consults state the "
                        "creation path never set, saved extents equal allocated extents, nothing reachable from a dictionary is freed by an operation or "
                        "left dangling by a loader, pattern bytes are range-checked before indexing, duplicate iterators have their sentinel, ids are "
@@ -75,52 +87,60 @@ PROPS = {
         "decided": ["no uninitialised/NULL state is consulted (R-STATE, R-INITCOVER, R-ZEROFILL)", "no over-read at save (R-EXTENT)",
                     "no use after free across API histories, no dangling loader state (R-KILLUSE, R-DANGLING)",
                     "index guards: alphabet, id range, sentinel (R-ALPHAGUARD, R-IDGUARD, R-DEDUP)", "no undefined shift (R-SHIFT)", "clamped bucket size (R-CLAMP)",
-                    "growth guards re-test after growing (R-GROW, loop form)", "PFC guard slack covers the largest appended extent for every length / shared prefix (R-SLACK)", "release form matches allocation form for every pointer field (R-ALLOCFORM)"],
+                    "growth guards re-test after growing (R-GROW, loop form)", "PFC guard slack covers the largest appended extent for every length / shared prefix (R-SLACK)", "release form matches allocation form for every pointer field (R-ALLOCFORM)",
+                    "the shared parts vector that the producer grows is indexed by workers only under its mutex: no access to a reallocated buffer (R-LOCKSET)"],
         "not_decided": ["all index arithmetic over decoded data (bucket scans, chunk decoding with b_remain, expandRule recursion depth, scratch buffers sized "
                         "from maxlength/maxcomplength), buffer growth estimates, suffix sorting on tiny inputs, termination: a pass means the structural "
                         "preconditions hold, not that the library is memory safe"],
         "assumptions": COMMON_ASSUME,
     },
     "C12": {
-        "rules": ["R-CLAMP", "R-PARAMFLOW", "R-DISPATCH", "R-PROBE", "R-BUCKET"],
+        "rules": ["R-CLAMP", "R-PARAMFLOW", "R-DISPATCH", "R-PROBE", "R-BUCKET", "R-SLOT", "R-JOIN"],
         "explanation": "The last sentence of the property (bucket size below 2 is replaced by 2) is decided by def-use on the five front-coding constructors; "
                        "thread_count and cut_size are shown to flow only into the pool size / the cut decision; every accepted hash load option has a loader.",
         "decided": ["raw bucket size never used after the clamp (R-CLAMP)", "thread_count -> pool only, cut_size -> cut decision and header only (R-PARAMFLOW)",
-                    "Hash::load has an arm for each of the three representations the kind loaders accept (R-DISPATCH)"],
+                    "Hash::load has an arm for each of the three representations the kind loaders accept (R-DISPATCH)",
+                    "thread count: blocks land in submission-order slots and the constructor joins all tasks before returning (R-SLOT, R-JOIN)"],
         "not_decided": ["equality of answers across bucket sizes / overheads / samplings (metamorphic, value-level)"],
         "assumptions": COMMON_ASSUME,
     },
     "C15": {
-        "rules": ["R-METADATA", "R-MIRROR"],
+        "rules": ["R-METADATA", "R-MIRROR", "R-NARROW"],
         "explanation": "Counter discipline in every building constructor (CFG must-pass-through between consecutive reads of the input) and image/loader "
                        "agreement for the two header fields.",
         "decided": ["each consumed string is counted exactly once; maxlength raised under a comparison with the length just read; derived kinds copy both (R-METADATA)",
-                    "both fields are written and read back with equal width and position (R-MIRROR)"],
+                    "both fields are written and read back with equal width and position (R-MIRROR)",
+                    "no save writes a data member through a narrower scalar type than the member has (R-NARROW)"],
         "not_decided": ["that the length reported by the input iterator is the string's length (trusted)"],
         "assumptions": COMMON_ASSUME,
     },
     "C17": {
-        "rules": ["R-SHIFT", "R-SETFIELD", "R-VBYTE", "R-TWINS", "R-MIRROR", "R-EXTENT", "R-ZEROFILL"],
+        "rules": ["R-SHIFT", "R-SETFIELD", "R-VBYTE", "R-TWINS", "R-MIRROR", "R-EXTENT", "R-ZEROFILL", "R-NARROW"],
         "explanation": "For the packed integer array the shift amounts of get_field/set_field/maxVal are evaluated from the source expressions over the whole "
                        "finite domain (width 1..64 x in-word offset 0..63) under the guards that dominate each shift: exact. Save/load agreement and "
                        "allocation extents for LogSequence, DAC_VLS, DAC_BVLS; zero-fill before read-modify-write packing.",
         "decided": ["no shift by >= operand width for any width 1..64 and offset, incl. fields straddling a word (R-SHIFT)",
-                    "LogSequence / DAC_VLS / DAC_BVLS survive save/load structurally (R-MIRROR, R-EXTENT)", "packed arrays are filled before set_field/bitset (R-ZEROFILL)", "VByte encoder/decoder (both copies) agree on group width, mask, terminator bit, threshold (R-VBYTE) and the two copies are structurally identical (R-TWINS)", "set_field clears before it sets (R-SETFIELD)"],
+                    "LogSequence / DAC_VLS / DAC_BVLS survive save/load structurally (R-MIRROR, R-EXTENT)", "packed arrays are filled before set_field/bitset (R-ZEROFILL)", "VByte encoder/decoder (both copies) agree on group width, mask, terminator bit, threshold (R-VBYTE) and the two copies are structurally identical (R-TWINS)", "set_field clears before it sets (R-SETFIELD)",
+                    "no save writes a data member through a narrower scalar type than the member has (R-NARROW)"],
         "not_decided": ["round trip of values, DAC level layout, VByte codec value round trip (value-level)"],
         "assumptions": COMMON_ASSUME,
     },
     "C03": {
-        "rules": ["R-BUCKET", "R-FMMAP", "R-NOSORT", "R-BYTEORDER"],
+        "rules": ["R-BUCKET", "R-FMMAP", "R-NOSORT", "R-BYTEORDER", "R-PURE-RANK", "R-CLAMP", "R-CMPSIGN", "R-BSEARCH", "R-SCANSIGN"],
         "explanation": "Order preservation decided structurally: rank operations are the identity / delegate to extract in the seven order-preserving "
                        "kinds, ID arithmetic is consistent with consuming the input in order, FM-index row mapping agrees, and no builder of an "
                        "order-preserving kind reorders its input (no sort reachable on their build paths).",
         "decided": ["locateRank is the identity and extractRank delegates to extract (R-BUCKET rank part)", "bucket arithmetic (R-BUCKET)",
-                    "FM-index row <-> ID mapping (R-FMMAP)", "no sort on the build path of order-preserving kinds (R-NOSORT)", "comparators order bytes as unsigned, in int (R-BYTEORDER)"],
+                    "FM-index row <-> ID mapping (R-FMMAP)", "no sort on the build path of order-preserving kinds (R-NOSORT)", "comparators order bytes as unsigned, in int (R-BYTEORDER)",
+                    "locateRank/extractRank keep no state between calls (R-PURE-RANK)",
+                    "the build loop and the queries use the same (clamped) bucket size, else IDs stop being ranks (R-CLAMP)",
+                    "three-way string comparators are oriented one way on all their paths (sign polarity of the pattern bytes in every returned value, R-CMPSIGN)",
+                    "binary searches move the bound the comparator's orientation dictates, and in-bucket scans give up only once the stored string is larger (R-BSEARCH, R-SCANSIGN)"],
         "not_decided": ["the alphabetic property of Hu-Tucker codes (memcmp on encoded headers = string order) and suffix-array order (value-level)"],
         "assumptions": COMMON_ASSUME,
     },
     "C19": {
-        "rules": ["R-MIRROR", "R-EXTENT", "R-DISPATCH", "R-SAVEPURE", "R-CONSTPURE"],
+        "rules": ["R-MIRROR", "R-EXTENT", "R-DISPATCH", "R-SAVEPURE", "R-CONSTPURE", "R-NARROW"],
         "explanation": "ONLY the last clause of the property (`the answers are unchanged after save/load`) is addressed, and only structurally: "
                        "writer/reader agreement, allocation extents, tag dispatch, save purity and element-to-field restoration for the bundled classes "
                        "the dictionaries persist and for the variants named in the property (BitSequenceRG/RRR/SDArray/DArray/375, WaveletTree, "
@@ -128,19 +148,22 @@ PROPS = {
                        "is value-level and NOT decided.",
         "decided": ["save/load element-by-element agreement of every bundled class in the cone (R-MIRROR)", "allocation = saved extent (R-EXTENT)",
                     "family dispatchers have an arm for every persisted class and the right tag (R-DISPATCH)", "save writes nothing but the stream (R-SAVEPURE)",
-                    "const query methods of the bundled structures write no object state and no global, so an answer cannot depend on earlier queries (R-CONSTPURE)"],
+                    "const query methods of the bundled structures write no object state and no global, so an answer cannot depend on earlier queries (R-CONSTPURE)",
+                    "no save writes a data member through a narrower scalar type than the member has (R-NARROW)"],
         "not_decided": ["access/rank/select agree with their plain definitions for every bit vector, sampling parameter and alphabet: the core of the property (value-level)",
                         "state recomputed at load (RRR sampling, RG rank directory) equals the built state"],
         "assumptions": COMMON_ASSUME,
     },
     "C20": {
-        "rules": ["R-RPZERO", "R-RPWIDTH", "R-RPGAP", "R-MIRROR"],
+        "rules": ["R-RPZERO", "R-RPWIDTH", "R-RPGAP", "R-MIRROR", "R-NARROW", "R-BACKPTR"],
         "explanation": "Structural conditions of the Re-Pair contract: who may raise a pair frequency and under which guard (terminator exclusion), "
                        "purge-before-extract on every path, identifier width computed as bits(rules+terminals) at every sizing site, and agreement of the "
                        "gap-pointer encoding between the compressor (writer) and the five compaction loops (readers). The grammar's image is covered by R-MIRROR.",
         "decided": ["no rule can contain symbol 0: guard dominates the only increment, purge precedes every extraction (R-RPZERO)",
                     "identifier storage is sized with bits(rules+terminals) at every site (R-RPWIDTH)",
-                    "gap pointers: writer -t-1, readers -(v+1), loops advance (R-RPGAP)", "grammar survives save/load structurally (R-MIRROR)"],
+                    "gap pointers: writer -t-1, readers -(v+1), loops advance (R-RPGAP)", "grammar survives save/load structurally (R-MIRROR)",
+                    "no save writes a data member through a narrower scalar type than the member has (R-NARROW)",
+                    "the compressor's hash table / frequency arrays and the records' back-pointers (kpos, hpos) are updated together at every store (R-BACKPTR)"],
         "not_decided": ["losslessness of the pair-replacement bookkeeping (L, Heap, Hash invariants): value-level"],
         "assumptions": COMMON_ASSUME,
     },
@@ -157,7 +180,7 @@ PROPS = {
         "assumptions": COMMON_ASSUME,
     },
     "C06": {
-        "rules": ["R-MIRROR", "R-EXTENT", "R-TAGS", "R-DISPATCH", "R-PADDING", "R-STATE", "R-SELECTRANGE"],
+        "rules": ["R-MIRROR", "R-EXTENT", "R-TAGS", "R-DISPATCH", "R-PADDING", "R-STATE", "R-SELECTRANGE", "R-NARROW"],
         "explanation": "Writer/reader agreement decided statically for every save/load pair in the cone of classes the 13 kinds persist "
                        "(rapid type analysis from their constructors) plus libcds classes named in C19: both halves are abstracted to "
                        "ordered trees of stream elements whose sizes are symbolic expressions over earlier image values, and compared "
@@ -169,7 +192,8 @@ PROPS = {
                     "libcds/Hash family dispatchers: arm per persisted class, tag equals the tag its save writes, peek restores position, no other seeking (R-DISPATCH)",
                     "no padded type is moved as raw bytes (R-PADDING)",
                     "every field an operation reads on a loaded object is assigned on the load path (R-STATE)",
-                    "the compact hash loaders enumerate occupied cells over 1..n like their sibling (R-SELECTRANGE)"],
+                    "the compact hash loaders enumerate occupied cells over 1..n like their sibling (R-SELECTRANGE)",
+                    "no save writes a data member through a narrower scalar type than the member has (R-NARROW)"],
         "not_decided": ["state recomputed at load (RRR sampling, HashBdh/HashBBdh compaction, DecodingTree::buildTree) equals the built state (value-level)",
                         "counts that depend on container sizes not present in the image are compared structurally only (listed as undecided in the evidence)",
                         "the generic loader's absolute seekg(0) assumes the image starts the stream (outside the self-delimiting clause, which is stated for a kind's own loader)"],
